@@ -1,0 +1,28 @@
+//go:build verif
+
+package parser
+
+import (
+	"github.com/antlr4-go/antlr/v4"
+	gen "github.com/xinchentechnote/fin-protoc/internal/grammar"
+)
+
+// VerifTypeTables exposes the per-language scalar type tables to the verification hook.
+func VerifTypeTables() map[string]interface{} {
+	return map[string]interface{}{
+		"go":   goBasicTypeMap,
+		"java": javaBasicTypeMap,
+		"py":   pyBasicTypeMap,
+		"cpp":  cppBasicTypeMap,
+		"lua":  luaBasicTypeMap,
+	}
+}
+
+// VerifParse runs the production lexer/parser set-up (the one FormatPacketDsl and ParseFile
+// use) on a text and returns the tree, the token stream and the collected errors.
+func VerifParse(text string) (gen.IPacketContext, *antlr.CommonTokenStream, *SyntaxErrorListener) {
+	parser, stream, _ := NewPacketDslParserByContent(text)
+	listener := NewSyntaxErrorListener()
+	tree := parseWithListener(parser, stream, listener)
+	return tree, stream, listener
+}
